@@ -126,6 +126,7 @@ partial def exprOf : SX → Except String Expr
   | .list [.atom "iflet", g, e, els] => do pure (.ifLet (← guardOf g) (← exprOf e) (← exprOf els))
   | .list (.atom "listcomp" :: .atom t :: body :: qs) => do
     pure (.listcomp (← exprOf body) (← qs.mapM qualOf) (← tyOf t))
+  | .list (.atom "pipe" :: l :: f :: args) => do pure (.pipe (← exprOf l) (← exprOf f) (← args.mapM exprOf))
   | .list (.atom "range" :: bounds) => do pure (.range (← bounds.mapM exprOf))
   | .list (.atom "slice" :: a :: bounds) => do pure (.slice (← exprOf a) (← bounds.mapM exprOf))
   | .list (.atom a :: _) => throw s!"bad expression form {a}"
@@ -226,6 +227,7 @@ partial def funsE (bs : List Name) : Expr → List (List Name × Func)
   | .for i c s b => funsE bs i ++ funsE bs c ++ funsE bs s ++ funsE bs b
   | .forIn x coll b => funsE bs coll ++ funsE (x :: bs) b
   | .call f args => funsEs bs args ++ funsE bs f
+  | .pipe l f args => funsEs bs args ++ funsE bs l ++ funsE bs f
   | .builtin _ args | .arrLit _ args _ | .arrNew args _ | .record _ args | .tuple args
   | .enumRec _ _ args | .range args => funsEs bs args
   | .lam fn => funsF (if fn.name = "" then bs else fn.name :: bs) fn
